@@ -1641,6 +1641,7 @@ func TestCheck(t *testing.T) {
 			req = append(req, "errfault.failed."+cl)
 		}
 	}
+	req = append(req, "siblings.write", "siblings.fresh-instance-write", "siblings.recovery-ok", "siblings.observations.sibling", "siblings.observations.the-written-target", "siblings.crashpoint.rename.before", "siblings.crashpoint.rename.after", "siblings.crashpoint.write.done")
 	req = append(req, "collide.after-write-ok", "collide.variant.all", "writes.name.collision-partner")
 	for _, v := range collideVariants {
 		req = append(req, "collide.variant."+v.Label)
@@ -1660,7 +1661,10 @@ func TestCheck(t *testing.T) {
 	errPl := buildErrPlan(len(seqPlan) + len(reusePl))
 	collPl := buildCollidePlan()
 	collFirst := len(seqPlan) + len(reusePl) + len(errPl)
-	rec.Planned(collFirst + len(collPl))
+	sibPl := buildSiblingPlan()
+	sibFirst := collFirst + len(collPl)
+	rec.Planned(sibFirst + len(sibPl))
+	rec.Note("sibling_target_cases", fmt.Sprintf("case indices %d..%d: two or three Dir instances with DIFFERENT targets in one base directory, names related by suffix/prefix/containment (certs & tls-certs, a & b-a, id & id-old, svid & a target named like a version directory, three at once; controls: unrelated names, the same name in different bases; x & x.new is looked at but not judged: the second target IS the first one's temporary link name); Writes interleaved between old and restarted instances, then a restarted instance's Write on each target is crashed at every hook hit (child process) and recovered by another fresh Dir while the siblings are live; after every step EVERY target must resolve to exactly the set of its own last successful Write (the interrupted one: any one complete set of its own history)", sibFirst, sibFirst+len(sibPl)-1))
 	rec.Note("colliding_name_cases", fmt.Sprintf("case indices %d..%d: crash-free; a file set holding a name N next to a name an implementation might use for a temporary or for bookkeeping around N (%d variants: N.tmp N.new N.bak N.old N~ N.swp N.lock N.part N.partial N.1 N-new N.tmp0 N.tmp.tmp N.temp N.orig .N .N.tmp .N.swp tmp-N #N#, and the names the pinned code uses itself: the target's base name, <base>.new, <base>.new.tmp, a version-directory-like name), one case per variant plus one with all of them; because the order in which Write walks its map is random, the same names are written 8 times in a row by one Dir (fresh contents), then once by a fresh Dir; after every nil return the target must show exactly that call's set by name and content", collFirst, collFirst+len(collPl)-1, len(collideVariants)))
 	rec.Note("error_return_fault_cases", fmt.Sprintf("case indices %d..%d: no process death; one filesystem step of a Write is made to fail with an error: removal of the previous version after the swap (that directory, or the base directory, gets the ext immutable attribute from the removeprev.before hook), mkdir/symlink/rename in a base directory pinned from that step's hook, or a file name that cannot be written (missing sub-directory, 300 characters, '.'); 0-2 successful Writes before, optionally a second Write while still pinned; then the pin is lifted and the same Dir (in half of the cases) and a fresh Dir write again. Oracle at every hook hit, after the failed Write and after the later Writes: absent only while no Write returned nil, else exactly one complete set of the history; the later Writes return nil and show their sets; lingering version directories counted only", len(seqPlan)+len(reusePl), len(seqPlan)+len(reusePl)+len(errPl)-1))
 	rec.Note("caller_owned_buffer_cases", fmt.Sprintf("case indices %d..%d: crash-free histories of one Dir with ONE caller-owned map whose byte slices are re-used and overwritten in place between Writes (all / one of three / changed and changed back / mutated right after Write returned), whose key set changes in the same map object, and identical consecutive sets in fresh buffers; after every nil return the target must show exactly the set of THAT call and only the current version directory may remain; one evaluation per Write, non-trivial = not the first Write of the history", len(seqPlan), len(seqPlan)+len(reusePl)-1))
@@ -1697,5 +1701,13 @@ func TestCheck(t *testing.T) {
 		}
 		rec.Begin(idx, p.desc())
 		runCollide(idx, p, root)
+	}
+	for i, p := range sibPl {
+		idx := sibFirst + i
+		if !mon.Mine(idx) {
+			continue
+		}
+		rec.Begin(idx, p.desc())
+		runSibling(idx, p, root)
 	}
 }
